@@ -157,3 +157,17 @@ CHECKS["C14"] = {"pkg": "netsim", "test": "TestC14", "level": "exploration",
     "assumptions": E3_ASSUME + ["EnsureBasicRule/full sync ran before per-pod Setup/Clean (as galaxy does at start-up)",
                                 "an explicit port lost to another process between selection and use makes the case inconclusive (counted in coverage.extra)"],
     "floors": {"stale_galaxy_chains": 0.3, "foreign_rules": 0.3}}
+
+CHECKS["C15"] = {"pkg": "netsim", "test": "TestC15", "level": "exploration",
+    "quick": {"checks": 1500, "timeout": 900}, "thorough": {"checks": 48000, "shards": 16, "timeout": 2400},
+    "rule": "rapid draws a pair of cluster states A,B (2-4 labelled namespaces, 3-10 labelled pods with IPs, some on this node, 0-5 policies "
+            "with pod/namespace/combined selectors, ipBlocks with excepts, ports, all policyTypes combinations; B derived from A by pod "
+            "delete/relabel/re-address/add and policy delete/rewrite/add), optionally the A->B difference as a generated permutation of "
+            "informer events through the real handlers, and prior kernel state (foreign chains/sets, stale GLX sets, stale GLX policy "
+            "chains, a stale pod chain still referencing a stale policy chain). Oracle on the strict fakes: no rejected batch, non-GLX "
+            "chains/rules/sets unchanged after every call, full sync of B == full sync of B on empty tables (canonical form), second full "
+            "sync changes nothing. Confirmed findings (known_findings.txt K1-K4) are classified by signature, counted and skipped. "
+            "Non-trivial = B differs from A in >=1 policy and >=1 pod and stale GLX garbage had to be removed.",
+    "assumptions": E3_ASSUME + ["one ipBlock peer per rule (several are merged into one set with conflicting elements, reported under C16)",
+                                "whether ipset 'add -exist' overwrites the nomatch flag is not settled; the fake keeps the existing element"],
+    "floors": {"stale_glx_garbage": 0.3, "pod_changed": 0.3}}
